@@ -25,17 +25,117 @@ var prefixBases = func() (out []netip.Addr) {
 	return
 }()
 
-func drawSetPrefix(rt *rapid.T, prev []netip.Prefix) (netip.Prefix, bool) {
-	k := rapid.IntRange(0, 9).Draw(rt, "prefix-kind")
+// setPrefix is one line of a generated prefix set: the prefix as netip parses it (host bits kept)
+// and the text it is written with (netip's own form, or another accepted notation).
+type setPrefix struct {
+	p    netip.Prefix
+	text string
+	um   bool   // written with host bits set
+	kind string // "", "mapped", "twin", "dup", "adjacent"
+}
+
+var mappedFixed = []string{"::ffff:198.51.100.0/120", "::ffff:203.0.113.7/128", "::ffff:0:0/96", "::ffff:10.1.2.0/121", "::ffff:255.255.255.255/128", "::ffff:0.0.0.0/97"}
+
+func mapAddr(a netip.Addr) netip.Addr { return netip.AddrFrom16(a.As16()) }
+
+// altNotation returns another text the parser accepts for the same prefix (as documented by
+// netip.ParsePrefix): hexadecimal or expanded form of an IPv4-mapped address, upper-case hex digits.
+func altNotation(p netip.Prefix, which int) string {
+	a := p.Addr()
+	switch {
+	case a.Is4In6() && which == 0:
+		b := a.As16()
+		return fmt.Sprintf("::ffff:%x:%x/%d", uint16(b[12])<<8|uint16(b[13]), uint16(b[14])<<8|uint16(b[15]), p.Bits())
+	case a.Is4In6():
+		return fmt.Sprintf("0:0:0:0:0:FFFF:%s/%d", a.Unmap(), p.Bits())
+	case a.Is6() && which == 0:
+		return strings.ToUpper(p.String())
+	case a.Is6():
+		return a.StringExpanded() + "/" + fmt.Sprint(p.Bits())
+	}
+	return p.String()
+}
+
+func drawSetPrefix(rt *rapid.T, prev []setPrefix) setPrefix {
+	k := rapid.IntRange(0, 15).Draw(rt, "prefix-kind")
 	if len(prev) > 0 && k < 3 {
 		// nested inside / enclosing an earlier prefix
-		p := rapid.SampledFrom(prev).Draw(rt, "nest-of")
+		p := rapid.SampledFrom(prev).Draw(rt, "nest-of").p.Masked()
 		bits := min(max(p.Bits()+rapid.SampledFrom([]int{-8, -1, 1, 8}).Draw(rt, "nest-d"), 0), p.Addr().BitLen())
 		a := p.Addr()
 		if bits > p.Bits() && rapid.Bool().Draw(rt, "nest-last") {
 			a = routex.LastAddr(p)
 		}
-		return netip.PrefixFrom(a, bits).Masked(), false
+		q := netip.PrefixFrom(a, bits).Masked()
+		return setPrefix{p: q, text: q.String()}
+	}
+	if len(prev) > 0 && k >= 12 {
+		o := rapid.SampledFrom(prev).Draw(rt, "rel-of")
+		m := o.p.Masked()
+		switch k {
+		case 12:
+			// the same prefix once more: same text, other host bits, or another notation
+			switch rapid.IntRange(0, 2).Draw(rt, "dup-form") {
+			case 0:
+				return setPrefix{p: o.p, text: o.text, um: o.um, kind: "dup"}
+			case 1:
+				q := netip.PrefixFrom(routex.LastAddr(m), m.Bits())
+				return setPrefix{p: q, text: q.String(), um: q != q.Masked(), kind: "dup"}
+			default:
+				return setPrefix{p: m, text: altNotation(m, rapid.IntRange(0, 1).Draw(rt, "dup-notation")), kind: "dup"}
+			}
+		case 13:
+			// adjacent: the sibling (together they are the parent) or the next block of the same size
+			if m.Bits() == 0 {
+				break
+			}
+			var q netip.Prefix
+			if rapid.Bool().Draw(rt, "adj-sibling") {
+				b := m.Addr().AsSlice()
+				i := m.Bits() - 1
+				b[i/8] ^= 1 << (7 - uint(i%8))
+				a, _ := netip.AddrFromSlice(b)
+				q = netip.PrefixFrom(a, m.Bits())
+			} else if next := routex.LastAddr(m).Next(); next.IsValid() {
+				q = netip.PrefixFrom(next, m.Bits())
+			} else {
+				break
+			}
+			return setPrefix{p: q, text: q.String(), kind: "adjacent"}
+		default:
+			// the same block in the other form: IPv4 prefix <-> IPv4-mapped IPv6 prefix
+			if m.Addr().Is4() {
+				q := netip.PrefixFrom(mapAddr(m.Addr()), m.Bits()+96)
+				return setPrefix{p: q, text: q.String(), kind: "twin"}
+			}
+			if m.Addr().Is4In6() && m.Bits() >= 96 {
+				q := netip.PrefixFrom(m.Addr().Unmap(), m.Bits()-96)
+				return setPrefix{p: q, text: q.String(), kind: "twin"}
+			}
+		}
+	}
+	if k == 10 || k == 11 {
+		// IPv4-mapped IPv6 prefixes: accepted by the parser, stored as IPv6
+		var q netip.Prefix
+		if rapid.Bool().Draw(rt, "mapped-fixed") {
+			q = netip.MustParsePrefix(rapid.SampledFrom(mappedFixed).Draw(rt, "mapped"))
+		} else {
+			v := rapid.Uint32().Draw(rt, "mapped-v4")
+			if rapid.Bool().Draw(rt, "mapped-base") {
+				v = rapid.SampledFrom([]uint32{0, 0x0a010203, 0xc6336400, 0xcb007107, 0xffffffff, 0x80000000}).Draw(rt, "mapped-v4b")
+			}
+			a := mapAddr(netip.AddrFrom4([4]byte{byte(v >> 24), byte(v >> 16), byte(v >> 8), byte(v)}))
+			bits := rapid.SampledFrom([]int{96, 96, 97, 104, 112, 120, 120, 127, 128, 128, 80, 90, 95}).Draw(rt, "mapped-bits")
+			q = netip.PrefixFrom(a, bits)
+			if rapid.IntRange(0, 3).Draw(rt, "mapped-unmasked") != 0 {
+				q = q.Masked()
+			}
+		}
+		sp := setPrefix{p: q, text: q.String(), um: q != q.Masked(), kind: "mapped"}
+		if q.Addr().Is4In6() && rapid.IntRange(0, 2).Draw(rt, "mapped-alt") == 0 {
+			sp.text = altNotation(q, rapid.IntRange(0, 1).Draw(rt, "mapped-notation"))
+		}
+		return sp
 	}
 	var a netip.Addr
 	if k < 8 {
@@ -55,8 +155,8 @@ func drawSetPrefix(rt *rapid.T, prev []netip.Prefix) (netip.Prefix, bool) {
 		a = netip.AddrFrom4([4]byte{byte(v >> 24), byte(v >> 16), byte(v >> 8), byte(v)})
 	}
 	bits := rapid.IntRange(0, a.BitLen()).Draw(rt, "bits")
-	if rapid.IntRange(0, 3).Draw(rt, "bits-edge") == 0 {
-		bits = rapid.SampledFrom([]int{0, 1, 7, 8, 9, a.BitLen() - 1, a.BitLen()}).Draw(rt, "bits-e")
+	if rapid.IntRange(0, 2).Draw(rt, "bits-edge") == 0 {
+		bits = rapid.SampledFrom([]int{0, 0, 1, 7, 8, 9, a.BitLen() - 1, a.BitLen(), a.BitLen()}).Draw(rt, "bits-e")
 	}
 	p := netip.PrefixFrom(a, bits)
 	// one in five keeps the host bits as written ("10.1.2.3/8" is a valid CIDR string)
@@ -64,24 +164,37 @@ func drawSetPrefix(rt *rapid.T, prev []netip.Prefix) (netip.Prefix, bool) {
 	if !unmasked {
 		p = p.Masked()
 	}
-	return p, unmasked
+	return setPrefix{p: p, text: p.String(), um: unmasked}
 }
 
 var recPrefix = ev.New("C10", "prefixset-roundtrip",
-	"rapid: 0-12 IPv4/IPv6 prefixes (fixed bases and random, lengths incl. 0,1,/32,/128, nested in and enclosing earlier ones, some written with host bits set), text with comment, blank and CRLF lines; "+
+	"rapid: 0-12 IPv4/IPv6 prefixes (fixed bases and random, lengths incl. 0,1,/32,/128, nested in and enclosing earlier ones, some written with host bits set; "+
+		"round 6: IPv4-mapped IPv6 prefixes (/96../128, a few shorter), the same block as IPv4 and as mapped prefix, exact duplicates (same text / other host bits / other notation), adjacent siblings and next blocks), text with comment, blank and CRLF lines; "+
 		"PrefixSetFromText -> PrefixSetToText / PrefixSetWriteText -> PrefixSetFromText, and LoadPrefixSet from a file; probes = first, last, first-1, last+1 of every prefix plus fixed addresses; "+
-		"oracle: netip.Prefix.Contains over the written list. Non-trivial: both families present and one prefix nested in another; distinct key = prefix list").
-	Require("v4", "v6", "nested", "len-0", "len-max", "unmasked-input", "crlf", "empty", "file-loaded")
+		"every probe in plain and in IPv4-mapped form; oracle: netip.Prefix.Contains over the written list (plain IPv4 address vs mapped prefix and mapped address vs IPv4 prefix: reloaded sets must answer like the original set). Non-trivial: both families present and one prefix nested in another; distinct key = prefix list").
+	Require("v4", "v6", "nested", "len-0", "len-max", "unmasked-input", "crlf", "empty", "file-loaded").
+	Require("len-0-v4", "len-0-v6", "host-v4/32", "host-v6/128", "mapped-prefix", "mapped/96", "mapped/128", "duplicate-prefix", "adjacent-prefixes", "other-form-twin", "alt-notation",
+		"mapped-probe-inside", "mapped-probe-outside", "cross-form-probe(reload-agreement-only)", "mapped-prefix-file-loaded")
 
 func TestPrefixSetRoundTrip(t *testing.T) {
 	rapid.Check(t, func(rt *rapid.T) {
 		n := rapid.SampledFrom([]int{0, 1, 2, 3, 5, 8, 12}).Draw(rt, "n")
+		var sps []setPrefix
 		var ps []netip.Prefix
 		anyUnmasked := false
+		kinds := map[string]bool{}
 		for i := 0; i < n; i++ {
-			p, um := drawSetPrefix(rt, ps)
-			ps = append(ps, p)
-			anyUnmasked = anyUnmasked || um
+			sp := drawSetPrefix(rt, sps)
+			if q, err := netip.ParsePrefix(sp.text); err != nil || q != sp.p {
+				rt.Fatalf("harness: notation %q does not denote %v (%v, %v)", sp.text, sp.p, q, err)
+			}
+			sps = append(sps, sp)
+			ps = append(ps, sp.p)
+			anyUnmasked = anyUnmasked || sp.um
+			kinds[sp.kind] = true
+			if sp.text != sp.p.String() {
+				kinds["alt-notation"] = true
+			}
 		}
 		crlf := rapid.Bool().Draw(rt, "crlf")
 		nl := "\n"
@@ -92,8 +205,8 @@ func TestPrefixSetRoundTrip(t *testing.T) {
 		if rapid.Bool().Draw(rt, "head-comment") {
 			sb.WriteString("# prefixes" + nl)
 		}
-		for i, p := range ps {
-			sb.WriteString(p.String())
+		for i, sp := range sps {
+			sb.WriteString(sp.text)
 			if i < len(ps)-1 || !rapid.Bool().Draw(rt, "no-final-nl") {
 				sb.WriteString(nl)
 			}
@@ -161,21 +274,93 @@ func TestPrefixSetRoundTrip(t *testing.T) {
 		for _, p := range ps {
 			probes = append(probes, routex.Boundary(p)...)
 		}
+		// every probe also in the other form: plain IPv4 <-> IPv4-mapped IPv6
+		for _, a := range probes[:len(probes):len(probes)] {
+			if a.Is4() {
+				probes = append(probes, mapAddr(a))
+			} else if a.Is4In6() {
+				probes = append(probes, a.Unmap())
+			}
+		}
+		// Oracle: naive containment over the original list (netip.Prefix.Contains: families are not
+		// mixed, an IPv4-mapped prefix holds IPv4-mapped addresses). Whether an IPv4-mapped prefix
+		// should also hold the plain IPv4 address (or an IPv4 prefix the mapped address) is not
+		// documented by the repository (the router unmaps addresses before asking; bart "does not
+		// perform automatic unmapping"): for those probes only "every reloaded set answers like the
+		// originally loaded one" is demanded.
+		var mappedInside, mappedOutside, crossProbes, crossTrue int
+		mapped := false
+		for _, p := range ps {
+			mapped = mapped || p.Addr().Is4In6()
+		}
 		for _, a := range probes {
 			want := routex.AnyContains(ps, a)
+			cross := false
+			if !want {
+				for _, p := range ps {
+					m := p.Masked()
+					switch {
+					case a.Is4() && m.Addr().Is4In6() && m.Bits() >= 96 && m.Contains(mapAddr(a)):
+						cross = true
+					case a.Is4In6() && m.Addr().Is4() && m.Contains(a.Unmap()):
+						cross = true
+					}
+				}
+			}
+			if cross {
+				crossProbes++
+				want = sets[0].has(a)
+				if want {
+					crossTrue++
+				}
+			} else if a.Is4In6() {
+				byMapped := false
+				for _, p := range ps {
+					if m := p.Masked(); m.Addr().Is4In6() && m.Bits() >= 96 && m.Contains(a) {
+						byMapped = true
+					}
+				}
+				if byMapped {
+					mappedInside++ // held by an IPv4-mapped prefix (not merely by ::/0 or the like)
+				} else if !want && mapped {
+					mappedOutside++
+				}
+			}
 			for _, s := range sets {
 				if got := s.has(a); got != want {
-					rt.Fatalf("SIG=C10/prefix-mismatch representation=%s addr=%s got=%v want=%v prefixes=%v text=%q written=%q", s.name, a, got, want, ps, text, t2)
+					sig := "prefix-mismatch"
+					if cross {
+						sig = "prefix-reload-differs-from-original"
+					}
+					rt.Fatalf("SIG=C10/%s representation=%s addr=%s got=%v want=%v prefixes=%v text=%q written=%q", sig, s.name, a, got, want, ps, text, t2)
 				}
 			}
 		}
 
 		var v4, v6, nested, l0, lmax bool
+		var l04, l06, host4, host6, mapped96, mappedHost, mappedShort, dupMasked, adjacent bool
 		for i, p := range ps {
 			v4 = v4 || p.Addr().Is4()
 			v6 = v6 || p.Addr().Is6()
 			l0 = l0 || p.Bits() == 0
 			lmax = lmax || p.Bits() == p.Addr().BitLen()
+			l04 = l04 || (p.Bits() == 0 && p.Addr().Is4())
+			l06 = l06 || (p.Bits() == 0 && p.Addr().Is6())
+			host4 = host4 || (p.Bits() == 32 && p.Addr().Is4())
+			host6 = host6 || (p.Bits() == 128 && !p.Addr().Is4In6())
+			if p.Addr().Is4In6() {
+				mapped96 = mapped96 || p.Bits() == 96
+				mappedHost = mappedHost || p.Bits() == 128
+				mappedShort = mappedShort || p.Bits() < 96
+			}
+			for j, o := range ps {
+				if i < j && o.Masked() == p.Masked() {
+					dupMasked = true
+				}
+				if i != j && o.Bits() == p.Bits() && o.Masked() != p.Masked() && o.Addr().BitLen() == p.Addr().BitLen() && routex.LastAddr(o).Next() == p.Masked().Addr() {
+					adjacent = true
+				}
+			}
 			for j, o := range ps {
 				if i != j && o.Bits() < p.Bits() && o.Contains(p.Addr()) {
 					nested = true
@@ -184,7 +369,11 @@ func TestPrefixSetRoundTrip(t *testing.T) {
 		}
 		var labels []string
 		for l, c := range map[string]bool{"v4": v4, "v6": v6, "nested": nested, "len-0": l0, "len-max": lmax, "unmasked-input": anyUnmasked, "crlf": crlf,
-			"empty": len(ps) == 0, "file-loaded": useFile} {
+			"empty": len(ps) == 0, "file-loaded": useFile,
+			"len-0-v4": l04, "len-0-v6": l06, "host-v4/32": host4, "host-v6/128": host6, "mapped-prefix": mapped, "mapped/96": mapped96, "mapped/128": mappedHost, "mapped-shorter-than-96": mappedShort,
+			"duplicate-prefix": dupMasked, "adjacent-prefixes": adjacent, "other-form-twin": kinds["twin"], "alt-notation": kinds["alt-notation"],
+			"mapped-probe-inside": mappedInside > 0, "mapped-probe-outside": mappedOutside > 0, "cross-form-probe(reload-agreement-only)": crossProbes > 0, "cross-form-probe-answered-true": crossTrue > 0,
+			"mapped-prefix-file-loaded": mapped && useFile} {
 			if c {
 				labels = append(labels, l)
 			}
